@@ -16,6 +16,8 @@
 import FwdVerif.Lemmas.H2Encode
 import FwdVerif.Lemmas.H2Size
 import FwdVerif.Lemmas.H2Drain
+import FwdVerif.Lemmas.H2Wire
+import FwdVerif.Model.H2Handoff
 
 namespace FwdVerif
 namespace C10
@@ -578,6 +580,139 @@ example :
     let d : Dir Unit := { maxFrame := 16 }
     (enqOf d (.data 1 (List.replicate 40 ()) none true)).map (fun q => (q.fc, match q with | .data _ e _ => e | _ => false)) =
       [(16, false), (16, false), (8, true)] := by
+  decide
+
+
+/-! ### several writers, one Framer: header blocks stay contiguous (RFC 7540 §6.10)
+
+  The wire towards an endpoint is a merge of what three goroutines write to its Framer
+  (`Model/H2Relay.lean`, last section).  `destMu` is held per queued ELEMENT, so the merge never
+  splits an element; `sched` is the order in which the scheduler grants the lock. -/
+
+/-- **in every merge of element sequences every header block is contiguous**: when each writer's
+    elements are whole (may start with no block open, leave none open) and the lock is held per
+    element, then for every number of writers, every element sequence and every order in which the
+    lock is granted, the wire satisfies §6.10 and ends with no block open. -/
+theorem c10_header_block_contiguous (ps : List (Producer α))
+    (h : ∀ p ∈ ps, ∀ e ∈ p, wholeElem e = true) (sched : List Nat) :
+    wireOk (mergeBy sched ps) = true ∧ wireScan none (mergeBy sched ps) = some none := by
+  have hw : AllWhole ps := by
+    intro p hp e he
+    have := h p hp e he
+    simpa [wholeElem] using this
+  have := mergeBy_whole sched ps hw
+  exact ⟨by simp [wireOk, this], this⟩
+
+/-- the wire is a concatenation of unsplit elements, each one taken from one of the writers: the
+    frames of a header block are next to each other, in their order -/
+theorem c10_wire_is_unsplit_elements (ps : List (Producer α)) (sched : List Nat) :
+    mergeBy sched ps = (mergeElems sched ps).flatten ∧ ∀ e ∈ mergeElems sched ps, ∃ p ∈ ps, e ∈ p :=
+  mergeBy_flatten sched ps
+
+/-- **the three writers of the relay**: the writer goroutine sends queued elements (`QFrame.send`,
+    whatever was released), the reader goroutine of the same relay writes what `processFrame` writes
+    directly towards the receiver, the reader goroutine of the peer relay what it writes directly
+    towards its sender (WINDOW_UPDATE) — for any frames processed in any states, any released
+    elements, and any lock order, the destination sees contiguous header blocks. -/
+theorem c10_destination_wire_contiguous (released : List (QFrame α))
+    (own : List (Dir α × Dir α × (Nat → List Nat) × Op α))
+    (peer : List (Dir α × Dir α × (Nat → List Nat) × Op α)) (sched : List Nat) :
+    let writer : Producer α := released.map QFrame.send
+    let reader : Producer α := (own.flatMap fun x => (process x.1 x.2.1 x.2.2.1 x.2.2.2).2.2.fwdDirect).map fun f => [f]
+    let peerReader : Producer α := (peer.flatMap fun x => (process x.1 x.2.1 x.2.2.1 x.2.2.2).2.2.backDirect).map fun f => [f]
+    wireOk (mergeBy sched [writer, reader, peerReader]) = true := by
+  intro writer reader peerReader
+  refine (c10_header_block_contiguous [writer, reader, peerReader] ?_ sched).1
+  intro p hp e he
+  simp only [List.mem_cons, List.mem_nil_iff, or_false] at hp
+  rcases hp with hp | hp | hp
+  · subst hp
+    obtain ⟨q, _, hq⟩ := List.mem_map.mp he
+    subst hq
+    simp [wholeElem, send_whole]
+  · subst hp
+    obtain ⟨f, hf, hq⟩ := List.mem_map.mp he
+    subst hq
+    obtain ⟨x, _, hfx⟩ := List.mem_flatMap.mp hf
+    simp [wholeElem, single_whole f ((process_direct_single x.1 x.2.1 x.2.2.1 x.2.2.2).1 f hfx)]
+  · subst hp
+    obtain ⟨f, hf, hq⟩ := List.mem_map.mp he
+    subst hq
+    obtain ⟨x, _, hfx⟩ := List.mem_flatMap.mp hf
+    simp [wholeElem, single_whole f ((process_direct_single x.1 x.2.1 x.2.2.1 x.2.2.2).2 f hfx)]
+
+/-- witness that the granularity of the lock is what the statement rests on: a 40-octet block under
+    a 16-octet limit (HEADERS + 2 CONTINUATION) and one PING of the reader goroutine.  With the lock
+    per element every grant order is fine; with the lock per FRAME (`perFrame`) the order "writer,
+    reader, writer, writer" puts the PING inside the block. -/
+theorem c10_frame_granular_merge_witness :
+    let d : Dir Unit := { maxFrame := 16 }
+    let writer : Producer Unit := (enqOf d (.headers 5 false true {} [] (List.replicate 40 ()))).map QFrame.send
+    let reader : Producer Unit := [[.ping false 7]]
+    wireOk (mergeBy [0, 1, 0, 0] [writer, reader]) = true ∧
+    wireOk (mergeBy [1, 0, 0, 0] [writer, reader]) = true ∧
+    wireOk (mergeBy [0, 1, 0, 0] [perFrame writer, perFrame reader]) = false ∧
+    wireFirstBad none 0 (mergeBy [0, 1, 0, 0] [perFrame writer, perFrame reader]) = some 1 := by
+  decide
+
+/-! ### the entry path: no HTTP/1 deadline under the relay (`Model/H2Handoff.lean`) -/
+
+/-- **hand-off clears the deadlines**: for every configuration of the HTTP/1 timeouts (each set or
+    not), whatever the times of the CONNECT request and of the `200`: a connection on which the
+    client negotiates h2 is passed to the relay with no read and no write deadline armed. -/
+theorem c10_h2_handoff_clears_deadlines (t : Timeouts) (t0 t1 t2 : Nat) :
+    connectThenMITM false t t0 t1 t2 .tlsH2 = ({ rd := none, wr := none }, .relay) := by
+  unfold connectThenMITM handleMITM writeResponse readRequest
+  by_cases hw : t.write = 0 <;> simp [hw]
+
+/-- … so no deadline ever fires under the relay: it is read for as long as the connection lives -/
+theorem c10_h2_relay_never_times_out (t : Timeouts) (t0 t1 t2 at_ : Nat) :
+    (connectThenMITM false t t0 t1 t2 .tlsH2).1.firedBy at_ = false := by
+  rw [c10_h2_handoff_clears_deadlines]; rfl
+
+/-- the other two continuations go back to `readRequest`, which arms its own deadlines from its own
+    clock whatever it finds armed: there (and only there) a deadline left by `handleMITM` is harmless -/
+theorem c10_http1_branches_rearm (c : Bool) (t : Timeouts) (t0 t1 t2 t3 t4 : Nat) (k : Tunnel) (hk : k ≠ .tlsH2) :
+    (connectThenMITM c t t0 t1 t2 k).2 = .readRequest ∧
+    (readRequest t t3 t4 (connectThenMITM c t t0 t1 t2 k).1).rd = arm t4 t.read := by
+  cases k with
+  | tlsH2 => exact absurd rfl hk
+  | plain =>
+    refine ⟨rfl, ?_⟩
+    simp only [readRequest]
+    split
+    · rename_i h; exact h
+    · rfl
+  | tlsHttp1 =>
+    refine ⟨rfl, ?_⟩
+    simp only [readRequest]
+    split
+    · rename_i h; exact h
+    · rfl
+
+/-- witness for the conditional clear ("clear the idle deadline only when a MITM handshake timeout
+    is configured"): IdleTimeout 400 ms, no handshake timeout, `200` written at 1000: the relay
+    receives a read deadline of 1400 and is cut off then — with a handshake timeout it is not. -/
+theorem c10_conditional_clear_witness :
+    (connectThenMITM true { idle := 400 } 0 0 1000 .tlsH2).1.rd = some 1400 ∧
+    (connectThenMITM true { idle := 400 } 0 0 1000 .tlsH2).1.firedBy 1400 = true ∧
+    (connectThenMITM true { idle := 400, mitmHandshake := 300 } 0 0 1000 .tlsH2).1.rd = none ∧
+    (connectThenMITM true { read := 500 } 0 0 1000 .tlsH2).1.rd = some 1500 := by
+  decide
+
+-- every timeout set, the CONNECT read at 10..20, the `200` at 30: nothing armed at hand-off
+example : connectThenMITM false { idle := 300, read := 400, readHeader := 350, write := 500 } 10 20 30 .tlsH2 =
+    ({ rd := none, wr := none }, .relay) := by decide
+
+-- a PUSH_PROMISE block and the peer relay's WINDOW_UPDATE pair, any of 3^4 grant orders of length 4
+example :
+    let d : Dir Unit := { maxFrame := 16 }
+    let writer : Producer Unit := (enqOf d (.pushPromise 1 2 true [] (List.replicate 30 ()))).map QFrame.send
+    let peerReader : Producer Unit := [[.windowUpdate 0 5], [.windowUpdate 3 5]]
+    (∀ p ∈ [writer, peerReader], ∀ e ∈ p, wholeElem e = true) ∧
+    mergeBy [1, 0, 1] [writer, peerReader] =
+      [.windowUpdate 0 5, .pushPromise 1 2 false (List.replicate 12 ()), .continuation 1 false (List.replicate 16 ()),
+       .continuation 1 true (List.replicate 2 ()), .windowUpdate 3 5] := by
   decide
 
 end C10
